@@ -1502,3 +1502,31 @@ func init() {
 		},
 	})
 }
+
+func init() {
+	register(&Rule{
+		ID: "C13-k", Template: "T3 who-may-call (only the collector deletes objects)",
+		Doc: "Objects are content-addressed and shared between commits, so only a reachability analysis can tell that one is unreferenced: objects.DeleteBlock / DeleteBlockIndex / DeleteTable / DeleteTableIndex / DeleteTableProfile / DeleteCommit are called only from pkg/prune (behind its marks, C12-c). An error path of commit, merge or receive that 'cleans up' what it has just written deletes a table that an earlier commit with the same content still points to — and the retry that would repair it never comes.",
+		Min: 5,
+		Run: func(p *Program, r *RuleResult) error {
+			del, err := p.MustFuncs("pkg/objects.DeleteBlock", "pkg/objects.DeleteBlockIndex", "pkg/objects.DeleteTable", "pkg/objects.DeleteTableIndex", "pkg/objects.DeleteTableProfile", "pkg/objects.DeleteCommit")
+			if err != nil {
+				return err
+			}
+			fns := p.ProdFuncs()
+			r.Analysed = len(fns)
+			for _, fn := range fns {
+				for _, c := range callsTo(fn, del) {
+					what := "stored objects are deleted only by prune's mark-and-sweep"
+					pkg := strings.TrimPrefix(fnPkgPath(fn), modPath+"/")
+					if pkg == "pkg/prune" || pkg == "pkg/objects" {
+						r.ok(callKey(fn, c), p.Rel(c.Pos()), what)
+					} else {
+						r.bad(callKey(fn, c), p.Rel(c.Pos()), what, funcName(fn)+" deletes a stored object without knowing whether another commit or table shares it")
+					}
+				}
+			}
+			return nil
+		},
+	})
+}
